@@ -618,6 +618,11 @@ class Exec:
             if isinstance(op, ast.Add): yield st, Sym(ty, la.z + lb.z); return
             if isinstance(op, ast.Sub): yield st, Sym(ty, la.z - lb.z); return
             if isinstance(op, ast.Mult): yield st, Sym(ty, la.z * lb.z); return
+            if ty == INT and isinstance(op, (ast.Mod, ast.FloorDiv)):
+                # Python floor semantics; z3's div/mod agree with it for a positive divisor
+                if isinstance(b, int) and b > 0: yield st, Sym(INT, (la.z % lb.z) if isinstance(op, ast.Mod) else (la.z / lb.z)); return
+                if feasible(st.pc, lb.z <= 0): raise Unsupported("// or % with a divisor that may be <= 0")
+                yield st, Sym(INT, (la.z % lb.z) if isinstance(op, ast.Mod) else (la.z / lb.z)); return
         raise Unsupported("binop %s on %r %r" % (type(op).__name__, a, b))
 
     def to_str(self, st, v, conv="s"):
